@@ -60,6 +60,27 @@ prop('C12', 'proof', 'Verus contracts on Serializable/Deserializable (sizes via 
 prop('C01', 'proof', 'Verus: function contracts (setup, encap/decap, seal/open) + round-trip lemmas over the contracts (induction over the message index)',
      'setup_sender and setup_receiver are verified equal to the same key-schedule spec function; encap and decap to dhkem_encap_spec / dhkem_decap_spec; the agreement lemma shows the two abstract contexts are equal '
      'when pkR = pk(skR) (DH commutativity axiom), and the sequence lemma shows the i-th sealed message opens to the i-th plaintext for every sequence length.', extra=[A_IDEAL])
+prop('C06', 'proof', 'Verus contracts on open / open_in_place_detached / single_shot_open* (aad, ciphertext and tag are passed unchanged to the AEAD; tag = last Nt bytes) + lemmas reducing integrity to AEAD unforgeability',
+     'the opening functions are verified to return Ok(pt) exactly when aead_open_spec(key, nonce(seq), aad, ct, tag) is Some(pt), with aad/ct/tag forwarded unchanged and the allocating form splitting at len-Nt, '
+     'and OpenError with the state untouched otherwise; lemmas: a triple that is not itself a Seal output is rejected; appending/removing/flipping bytes of ct||tag changes the (ct, tag) pair; short inputs are OpenErrors. '
+     'That AES-GCM / ChaCha20-Poly1305 are unforgeable is the explicit hypothesis of the reduction.', extra=[A_IDEAL])
+prop('C07', 'proof', 'Verus contracts tie setup to key_schedule_spec / dhkem specs; binding lemmas over those spec functions (injectivity of the fixed-layout encodings) reduce context binding to HKDF collision-freeness',
+     'derive_enc_ctx/setup_* are verified equal to the RFC key schedule over (suite_id, mode, shared_secret, info, psk, psk_id); lemma_key_schedule_binding proves that equal key / base_nonce / exporter_secret '
+     'force ALL of those inputs equal unless one of the listed HKDF calls collides (explicit hypothesis); suite ids are injective in (kem, kdf, aead); exports bind exporter_secret and context; the KEM secret binds dh and kem_context. '
+     'The step from "different key" to "cannot open" is the AEAD wrong-key assumption, stated in DESIGN.md, not formalised.', extra=[A_IDEAL])
+prop('C08', 'proof', 'Verus contracts on AuthEncap/AuthDecap and the mode getters + lemmas: the receiver derives the sender secret only if the sender key matches pkS',
+     'encap_with_eph/decap are verified to use dh = DH(skE,pkR)||DH(skS,pkR) and kem_context = enc||pkRm||pkSm, get_sender_id_keypair/get_pk_sender_id to return the key material exactly in the Auth modes, '
+     'psk to enter `secret`; lemma_auth_requires_sender_key: equal secrets force pk(sk_used) == pkS (DH commutativity axiom, DH injectivity and HKDF collision-freeness as explicit hypotheses); '
+     'lemma_unauth_sender_rejected: a non-auth sender never matches.', extra=[A_IDEAL])
+prop('C16', 'proof', 'Kani on the real Drop impls with the real zeroize (asm barrier stubbed): after drop_in_place every byte of the secret is zero, for ALL byte values',
+     'AeadKey / AeadNonce (per AEAD), ExporterSecret (per KDF), SharedSecret (any alignment 0..7) and the base_nonce / exporter_secret fields of a dropped context are proved all-zero after the drop for every value of the secret. '
+     'Third clause (temporary AEAD key wiped before setup returns): the key buffer in derive_enc_ctx is an AeadKey<A> that is only borrowed by AeadCtx::new (Verus-verified signature) plus the proved Drop; that Rust runs the drop at scope exit is language semantics.',
+     note='Kani/CBMC memory model; zeroize::optimization_barrier (inline asm, a semantic no-op) is stubbed; Rust drop placement is assumed; a mem::forget/ManuallyDrop wrapper around the temporary would not be detected')
+prop('C18', 'proof', 'Verus postconditions: every result is a pure spec function of arguments, RNG stream and the context view; Kani self-composition of gen_keypair; rustc trait solver for Send/Sync and forbid(unsafe_code)',
+     'every operation under contract has a postcondition result == f(arguments, rng_stream, self.view()) with f a spec function, and the RNG stream advances by exactly Nsk bytes; export takes &self; '
+     'gen_keypair is run twice with unrelated activity in between (Kani, model KEM, sound by parametricity) and must return derive_keypair of the bytes drawn; Send + Sync of every public value type x suite and absence of unsafe are rustc obligations. '
+     'No thread interleaving is explored: that concurrent &self exports equal sequential ones is Rust aliasing semantics (assumed).',
+     note='Rust type system soundness for Send/Sync; no schedule exploration (Kani has no threads)')
 
 def trusted_base(pid, res):
     tb = list(BASE) + PROPS[pid]['extra']
@@ -92,4 +113,4 @@ def assumptions(pid, res):
 
 # properties whose machinery is not finished yet (kept out of `checks` until their obligations are discharged)
 NOT_YET = {p: 'not claimed yet: contracts for this property are still being built in this session (see DESIGN.md section 7 for the plan)'
-           for p in ('C01', 'C03', 'C06', 'C07', 'C08', 'C09', 'C10', 'C12', 'C16', 'C18') if p not in PROPS}
+           for p in () if p not in PROPS}
